@@ -1,14 +1,14 @@
 SPECIFICATION Spec
 CONSTANTS
-  Kinds <- AllKinds
+  Kinds <- OnlyQUIC
   WLA <- AllWL
   WLB <- OnlyAll
   Weak <- NoWeak
   MaxConn = 1
   MaxSend = 2
-  MaxAdv = 2
+  MaxAdv = 1
   CacheMax = 16
-  Extras = {}
+  Extras = {"A", "B", "M"}
   Asks = {FALSE}
-INVARIANTS NeverDropped
+INVARIANTS Attribution DialSafety Whitelist
 CHECK_DEADLOCK FALSE
